@@ -130,7 +130,7 @@ Proof.
     assert (i < length (k_already k))%nat by (apply nth_error_Some; congruence). lia.
 Qed.
 
-Lemma fst_let {A B C} (x : list A * B) (a : A) :
+Lemma fst_let {A B} (x : list A * B) (a : A) :
   fst (let (o, f) := x in (a :: o, f)) = a :: fst x.
 Proof. destruct x; reflexivity. Qed.
 
@@ -154,23 +154,25 @@ Proof.
   - rewrite fst_let, (IH k c Hi). destruct Hi as [_ [_ [_ [Hs _]]]]. rewrite Hs. reflexivity.
 Qed.
 
+End Counter.
+
 (* a counter reports a quorum exactly when the counted weight reaches floor(2W/3)+1,
    i.e. exactly when it exceeds two thirds of the total *)
-Lemma has_quorum_iff k c : cinv k c ->
-  (has_quorum k = true <-> quorum_spec W <= wsum (wpos ws) (positions ws) (in_set c)) /\
-  (has_quorum k = true <-> 3 * wsum (wpos ws) (positions ws) (in_set c) > 2 * W).
+Lemma has_quorum_iff vs k c : cinv vs k c ->
+  (has_quorum k = true <->
+     quorum_spec (total_weight vs) <= wsum (wpos (sorted_weights vs)) (positions (sorted_weights vs)) (in_set c)) /\
+  (has_quorum k = true <->
+     3 * wsum (wpos (sorted_weights vs)) (positions (sorted_weights vs)) (in_set c) > 2 * total_weight vs).
 Proof.
   intros [_ [_ [_ [Hs Hq]]]]. unfold has_quorum. rewrite Hs, Hq, counted_sum_wsum, N.leb_le.
   split; [reflexivity|]. unfold quorum_spec. lia.
 Qed.
-End Counter.
 
 Lemma spec_counter_ext ws W f g c cops : (forall id, f id = g id) ->
   spec_counter ws W f c cops = spec_counter ws W g c cops.
 Proof.
   intros H. revert c. induction cops as [|op cops IH]; intros c; [reflexivity|].
   cbn [spec_counter]. destruct op; rewrite ?H, ?IH; try reflexivity.
-  destruct (_ <? _)%nat; [rewrite IH|]; reflexivity.
 Qed.
 
 Lemma sum_weights_sumN l : sum_weights l = sumN (map snd l).
@@ -197,4 +199,35 @@ Proof.
   intros Hf Hb. destruct (build_counter_hyps ops vs Hf Hb) as [H1 [H2 [H3 [H4 H5]]]].
   rewrite (run_counter_spec vs H3 H4 H5 cops (new_counter vs) []) by (apply cinv_new; assumption).
   rewrite H1, H2. apply spec_counter_ext. apply get_idx_spec; assumption.
+Qed.
+
+(* quorum intersection on a built validator set: sets of positions P, Q *)
+Theorem intersection_built ops vs (P Q : nat -> bool) : weights_fit ops -> build ops = Some vs ->
+  let ws := sorted_weights vs in
+  quorum vs <= wsum (wpos ws) (positions ws) P ->
+  quorum vs <= wsum (wpos ws) (positions ws) Q ->
+  3 * wsum (wpos ws) (positions ws) (fun i => P i && Q i) > total_weight vs.
+Proof.
+  intros Hf Hb ws HP HQ. destruct (build_counter_hyps ops vs Hf Hb) as [_ [_ [_ [H4 H5]]]].
+  fold ws in H4. unfold quorum in *. rewrite H4 in *. rewrite <- (wtotal_positions ws) in *.
+  apply intersection_gen; assumption.
+Qed.
+
+(* the whole set reaches the quorum, a set holding at most two thirds does not *)
+Theorem whole_set_built ops vs : weights_fit ops -> build ops = Some vs -> 1 <= total_weight vs ->
+  let ws := sorted_weights vs in
+  quorum vs <= wsum (wpos ws) (positions ws) (fun _ => true).
+Proof.
+  intros Hf Hb H1 ws. destruct (build_counter_hyps ops vs Hf Hb) as [_ [_ [_ [H4 H5]]]].
+  fold ws in H4. fold (wtotal (wpos ws) (positions ws)). rewrite wtotal_positions, <- H4.
+  unfold quorum. apply whole_set; assumption.
+Qed.
+
+Theorem two_thirds_built ops vs (P : nat -> bool) : weights_fit ops -> build ops = Some vs ->
+  let ws := sorted_weights vs in
+  3 * wsum (wpos ws) (positions ws) P <= 2 * total_weight vs ->
+  wsum (wpos ws) (positions ws) P < quorum vs.
+Proof.
+  intros Hf Hb ws H. destruct (build_counter_hyps ops vs Hf Hb) as [_ [_ [_ [H4 H5]]]].
+  unfold quorum. apply two_thirds_fail; assumption.
 Qed.
